@@ -21,6 +21,8 @@ Remarks.
   read in that case (no points, or only zero-width records: `zw_run`).
 * The queues may hold more items than there are points (complete fields inside the zero padding of
   a stream's last byte); the iterator stops after `records` points, so they are never seen.
+* Records of zero bit size are constants of the prototype (`constOf`): their queues stay empty
+  (`RecInv`), `pop_point` takes their value from the prototype (`QInv.pop`).
 * `FileCtx.hphys` (physical size below 2^64) is needed because the header stores offsets as `u64`.
 
 Core Lean only.  No `sorry`, no new axioms.
@@ -581,9 +583,9 @@ def fieldVals (dt : DataType) (S : Bytes) (lo n : Nat) : List Value :=
 /-- `parse_byte_streams` for one sized record whose buffer stands at a field boundary:
     all remaining complete fields are appended to the queue, the cursor moves to the last
     field boundary -/
-theorem parseStream_sized (dt : DataType) (hr : dt.RangeOk) (hw : dt.bitSize ≠ 0) (m : Nat) (s : RBuf)
+theorem parseStream_sized (dt : DataType) (hr : dt.RangeOk) (hw : dt.bitSize ≠ 0) (s : RBuf)
     (S : Bytes) (cnt : Nat) (q : List Value) (hrep : s.Rep S (cnt * dt.bitSize)) :
-    ∃ s', parseStream dt m s q =
+    ∃ s', parseStream dt s q =
         some (s', q ++ fieldVals dt S cnt (8 * S.length / dt.bitSize - cnt)) ∧
       s'.Rep S (8 * S.length / dt.bitSize * dt.bitSize) := by
   have hP : cnt * dt.bitSize ≤ 8 * S.length := by
@@ -633,13 +635,23 @@ theorem parseStream_sized (dt : DataType) (hr : dt.RangeOk) (hw : dt.bitSize ≠
       DataType.bitSize]
     rfl
 
-theorem parseStream_zero (dt : DataType) (hw : dt.bitSize = 0) (m : Nat) (s : RBuf) (q : List Value) :
-    parseStream dt m s q = some (s, q ++ List.replicate (m - q.length) (zeroValue dt)) := by
+/-- a record of zero bit size is not unpacked at all (its value is a constant of the prototype) -/
+theorem parseStream_zero (dt : DataType) (hw : dt.bitSize = 0) (s : RBuf) (q : List Value) :
+    parseStream dt s q = some (s, q) := parseStream_zero_id dt s q hw
+
+/-- the constant of a record of zero bit size is the value `zeroValue` names -/
+theorem constOf_zero (dt : DataType) (hw : dt.bitSize = 0) : constOf dt = some (zeroValue dt) := by
   cases dt with
   | single a b => simp [DataType.bitSize] at hw
   | double a b => simp [DataType.bitSize] at hw
-  | scaled mn mx sc off => simp only [parseStream, hw, if_true, zeroValue]
-  | integer mn mx => simp only [parseStream, hw, if_true, zeroValue]
+  | scaled mn mx sc off => simp only [constOf, hw, if_true, zeroValue]
+  | integer mn mx => simp only [constOf, hw, if_true, zeroValue]
+
+theorem constOf_sized (dt : DataType) (hw : dt.bitSize ≠ 0) : constOf dt = none := by
+  have := constOf_isSome dt
+  cases h : constOf dt with
+  | none => rfl
+  | some v => rw [h] at this; simp at this; exact absurd this hw
 
 end Layout
 end E57
@@ -718,12 +730,12 @@ theorem readStreams_holds {d : Bytes} (hd : d.length % 1020 = 0) :
       simp
 
 /-- `parseStreams` succeeds when every record's `parseStream` does; results index by index -/
-theorem parseStreams_all (m : Nat) (P : Nat → RBuf → List Value → Prop) :
+theorem parseStreams_all (P : Nat → RBuf → List Value → Prop) :
     ∀ (rs : List Record) (ss : List RBuf) (qs : List (List Value)) (k : Nat),
       ss.length = rs.length → qs.length = rs.length →
       (∀ i (h : i < rs.length), ∃ s' q',
-        parseStream rs[i].dt m (ss.getD i RBuf.new) (qs.getD i []) = some (s', q') ∧ P (k + i) s' q') →
-      ∃ ss' qs', parseStreams rs m ss qs = some (ss', qs') ∧ ss'.length = rs.length ∧
+        parseStream rs[i].dt (ss.getD i RBuf.new) (qs.getD i []) = some (s', q') ∧ P (k + i) s' q') →
+      ∃ ss' qs', parseStreams rs ss qs = some (ss', qs') ∧ ss'.length = rs.length ∧
         qs'.length = rs.length ∧
         ∀ i, i < rs.length → P (k + i) (ss'.getD i RBuf.new) (qs'.getD i []) := by
   intro rs
@@ -757,77 +769,44 @@ theorem parseStreams_all (m : Nat) (P : Nat → RBuf → List Value → Prop) :
             rw [show k + 1 + i = k + (i + 1) by omega] at this
             simpa using this
 
-/-- number of items a sized record will have after unpacking -/
-def items (rs : List Record) (ss : List RBuf) (qs : List (List Value)) (i : Nat) : Nat :=
-  ((ss.getD i RBuf.new).buffer.length * 8 - (ss.getD i RBuf.new).offset) /
-    (rs.getD i ⟨.cartesianX, .integer 0 0⟩).dt.bitSize + (qs.getD i []).length
-
-def sizedAt (rs : List Record) (i : Nat) : Prop :=
-  i < rs.length ∧ (rs.getD i ⟨.cartesianX, .integer 0 0⟩).dt.bitSize ≠ 0
-
-/-- `minQueueSize` is the minimum of `items` over the sized records -/
-theorem minQueueSize_spec : ∀ (rs : List Record) (ss : List RBuf) (qs : List (List Value)),
-    ss.length = rs.length → qs.length = rs.length →
-    match minQueueSize rs ss qs with
-    | none => ∀ i, ¬ sizedAt rs i
-    | some m => (∀ i, sizedAt rs i → m ≤ items rs ss qs i) ∧ ∃ i, sizedAt rs i ∧ m = items rs ss qs i := by
-  intro rs
-  induction rs with
-  | nil => intro ss qs _ _; simp [minQueueSize, sizedAt]
-  | cons r rs ih =>
-    intro ss qs hs hq
-    cases ss with
-    | nil => simp at hs
-    | cons s ss =>
-      cases qs with
-      | nil => simp at hq
-      | cons q qs =>
-        have IH := ih ss qs (by simpa using hs) (by simpa using hq)
-        have hshift : ∀ i, sizedAt (r :: rs) (i + 1) ↔ sizedAt rs i := by
-          intro i; simp [sizedAt]
-        have hitems : ∀ i, items (r :: rs) (s :: ss) (q :: qs) (i + 1) = items rs ss qs i := by
-          intro i; simp [items]
-        have h0 : sizedAt (r :: rs) 0 ↔ r.dt.bitSize ≠ 0 := by simp [sizedAt]
-        have hi0 : items (r :: rs) (s :: ss) (q :: qs) 0
-            = (s.buffer.length * 8 - s.offset) / r.dt.bitSize + q.length := by simp [items]
-        simp only [minQueueSize]
-        by_cases hw : r.dt.bitSize ≠ 0
-        · rw [if_pos hw]
-          cases hm : minQueueSize rs ss qs with
-          | none =>
-            rw [hm] at IH
-            refine ⟨?_, 0, h0.2 hw, hi0.symm⟩
-            intro i hi
-            cases i with
-            | zero => rw [hi0]; exact Nat.le_refl _
-            | succ i => exact absurd ((hshift i).1 hi) (IH i)
-          | some m =>
-            rw [hm] at IH
-            obtain ⟨hle, j, hj, ej⟩ := IH
-            refine ⟨?_, ?_⟩
-            · intro i hi
-              cases i with
-              | zero => rw [hi0]; omega
-              | succ i => rw [hitems]; have := hle i ((hshift i).1 hi); omega
-            · by_cases hc : (s.buffer.length * 8 - s.offset) / r.dt.bitSize + q.length ≤ m
-              · exact ⟨0, h0.2 hw, by rw [hi0]; omega⟩
-              · exact ⟨j + 1, (hshift j).2 hj, by rw [hitems]; omega⟩
-        · rw [if_neg hw]
-          cases hm : minQueueSize rs ss qs with
-          | none =>
-            rw [hm] at IH
-            intro i hi
-            cases i with
-            | zero => exact hw (h0.1 hi)
-            | succ i => exact IH i ((hshift i).1 hi)
-          | some m =>
-            rw [hm] at IH
-            obtain ⟨hle, j, hj, ej⟩ := IH
-            refine ⟨?_, j + 1, (hshift j).2 hj, by rw [hitems]; exact ej⟩
-            intro i hi
-            cases i with
-            | zero => exact absurd (h0.1 hi) hw
-            | succ i => rw [hitems]; exact hle i ((hshift i).1 hi)
+/-- a function on a non-empty finite set of indices attains its minimum -/
+theorem exists_min_on (P : Nat → Prop) (f : Nat → Nat) :
+    ∀ (n : Nat), (∃ i, i < n ∧ P i) →
+      ∃ m, (∀ i, i < n → P i → m ≤ f i) ∧ ∃ i, i < n ∧ P i ∧ m = f i := by
+  intro n
+  induction n with
+  | zero => intro ⟨i, hi, _⟩; omega
+  | succ n ih =>
+    intro hex
+    by_cases hprev : ∃ i, i < n ∧ P i
+    · obtain ⟨m, hle, j, hj, hPj, ej⟩ := ih hprev
+      by_cases hPn : P n
+      · by_cases hc : f n ≤ m
+        · refine ⟨f n, ?_, n, by omega, hPn, rfl⟩
+          intro i hi hPi
+          by_cases e : i = n
+          · subst e; exact Nat.le_refl _
+          · have := hle i (by omega) hPi; omega
+        · refine ⟨m, ?_, j, by omega, hPj, ej⟩
+          intro i hi hPi
+          by_cases e : i = n
+          · subst e; omega
+          · exact hle i (by omega) hPi
+      · refine ⟨m, ?_, j, by omega, hPj, ej⟩
+        intro i hi hPi
+        by_cases e : i = n
+        · subst e; exact absurd hPi hPn
+        · exact hle i (by omega) hPi
+    · obtain ⟨i, hi, hPi⟩ := hex
+      have e : i = n := by
+        false_or_by_contra
+        exact hprev ⟨i, by omega, hPi⟩
+      subst e
+      refine ⟨f i, ?_, i, by omega, hPi, rfl⟩
+      intro i' hi' hPi'
+      by_cases e : i' = i
+      · subst e; exact Nat.le_refl _
+      · exact absurd ⟨i', by omega, hPi'⟩ hprev
 
 end Layout
 end E57
@@ -918,11 +897,11 @@ theorem Static.stream_field (st : Static types points proto) (i : Nat) (h : i < 
 end
 
 /-- invariant of one record: `c` bytes of its stream `strm` have been appended, `k` values popped;
-    sized records hold exactly the complete fields of the bytes seen, zero-width records are filled
-    up to `M` (the minimum over the sized records) -/
+    sized records hold exactly the complete fields of the bytes seen (at least `M` of them), zero-width
+    records are constants of the prototype: nothing is ever queued for them -/
 def RecInv (dt : DataType) (strm : Bytes) (c k M : Nat) (s : RBuf) (q : List Value) : Prop :=
   c ≤ strm.length ∧
-  (dt.bitSize = 0 → s = RBuf.new ∧ q = List.replicate (M - k) (zeroValue dt)) ∧
+  (dt.bitSize = 0 → s = RBuf.new ∧ q = []) ∧
   (dt.bitSize ≠ 0 →
     s.Rep (strm.take c) (8 * c / dt.bitSize * dt.bitSize) ∧
     q = (fieldVals dt (strm.take c) 0 (8 * c / dt.bitSize)).drop k ∧
@@ -968,11 +947,11 @@ theorem div_mul_mono (a b w : Nat) (h : a ≤ b) : 8 * a / w ≤ 8 * b / w :=
 
 /-- one record, one data packet: append the chunk, unpack -/
 theorem rec_step (dt : DataType) (hr : dt.RangeOk) (strm : Bytes) (hz : dt.bitSize = 0 → strm = [])
-    (c k M len m : Nat) (s : RBuf) (q : List Value)
-    (h : RecInv dt strm c k M s q) (hM : M ≤ m + k)
-    (hm : dt.bitSize ≠ 0 → m + k ≤ 8 * (c + ((strm.drop c).take len).length) / dt.bitSize) :
-    ∃ s' q', parseStream dt m (appendBuf s ((strm.drop c).take len)) q = some (s', q') ∧
-      RecInv dt strm (c + ((strm.drop c).take len).length) k (m + k) s' q' := by
+    (c k M len M' : Nat) (s : RBuf) (q : List Value)
+    (h : RecInv dt strm c k M s q)
+    (hm : dt.bitSize ≠ 0 → M' ≤ 8 * (c + ((strm.drop c).take len).length) / dt.bitSize) :
+    ∃ s' q', parseStream dt (appendBuf s ((strm.drop c).take len)) q = some (s', q') ∧
+      RecInv dt strm (c + ((strm.drop c).take len).length) k M' s' q' := by
   obtain ⟨hc, hzero, hsized⟩ := h
   have hc' : c + ((strm.drop c).take len).length ≤ strm.length := by
     simp only [List.length_take, List.length_drop]; omega
@@ -984,15 +963,13 @@ theorem rec_step (dt : DataType) (hr : dt.RangeOk) (strm : Bytes) (hz : dt.bitSi
   · obtain ⟨es, eq⟩ := hzero hw
     have hs := hz hw
     subst hs
-    refine ⟨_, _, parseStream_zero dt hw m _ q, hc', fun _ => ⟨?_, ?_⟩, fun h => absurd hw h⟩
-    · rw [es]; simp [appendBuf_new_nil]
-    · rw [eq, List.length_replicate, List.replicate_append_replicate]
-      congr 1; omega
+    refine ⟨_, _, parseStream_zero dt hw _ q, hc', fun _ => ⟨?_, eq⟩, fun h => absurd hw h⟩
+    rw [es]; simp [appendBuf_new_nil]
   · obtain ⟨hrep, eq, hk, hMle⟩ := hsized hw
     have hw0 : 0 < dt.bitSize := by omega
     have hrep1 := appendBuf_rep s _ ((strm.drop c).take len) _ hrep
     rw [← htake] at hrep1
-    obtain ⟨s', e, hrep'⟩ := parseStream_sized dt hr hw m _ _ (8 * c / dt.bitSize) q hrep1
+    obtain ⟨s', e, hrep'⟩ := parseStream_sized dt hr hw _ _ (8 * c / dt.bitSize) q hrep1
     have hlen' : (strm.take (c + ((strm.drop c).take len).length)).length
         = c + ((strm.drop c).take len).length := by
       rw [List.length_take, Nat.min_eq_left hc']
@@ -1048,11 +1025,10 @@ theorem nextCursors_length (cursors : List Nat) (p : PacketSpec) (h : cursors.le
 theorem parse_step (st : Static types points proto) (k M : Nat) (cursors lens : List Nat) (q : QR)
     (inv : QInv types points proto k M cursors q) :
     let ss1 := List.zipWith appendBuf q.streams (chunks (streamsOf types points) cursors lens)
-    let m := (minQueueSize q.proto ss1 q.queues).getD 0
-    ∃ ss' qs', parseStreams q.proto m ss1 q.queues = some (ss', qs') ∧
-      QInv types points proto k (m + k) (nextCursors (streamsOf types points) cursors (.data lens))
+    ∃ ss' qs' M', parseStreams q.proto ss1 q.queues = some (ss', qs') ∧
+      QInv types points proto k M' (nextCursors (streamsOf types points) cursors (.data lens))
         { q with streams := ss', queues := qs' } := by
-  intro ss1 m
+  intro ss1
   obtain ⟨hproto, slen, qlen, clen, recs, ⟨j, hj, hjw, hjM⟩⟩ := inv
   have chlen : (chunks (streamsOf types points) cursors lens).length = types.length := by
     rw [chunks_length, streamsOf_length]
@@ -1066,70 +1042,18 @@ theorem parse_step (st : Static types points proto) (k M : Nat) (cursors lens : 
   -- new cursor and the count of complete fields
   let c' := fun i => cursors.getD i 0 +
     (((recordStream types points i).drop (cursors.getD i 0)).take (lens.getD i 0)).length
-  have hc'le : ∀ i, i < types.length → c' i ≤ (recordStream types points i).length := by
-    intro i hi
-    have := (recs i hi).1
-    simp only [c', List.length_take, List.length_drop]; omega
-  -- items of a sized record
-  have hitems : ∀ i, i < types.length → (dtAt proto i).bitSize ≠ 0 →
-      items q.proto ss1 q.queues i + k = 8 * c' i / (dtAt proto i).bitSize ∧
-      8 * cursors.getD i 0 / (dtAt proto i).bitSize ≤ 8 * c' i / (dtAt proto i).bitSize := by
-    intro i hi hw
-    obtain ⟨hc, _, hs⟩ := recs i hi
-    obtain ⟨hrep, eq, hk, hMle⟩ := hs hw
-    have hrep1 := appendBuf_rep _ _ (((recordStream types points i).drop (cursors.getD i 0)).take (lens.getD i 0)) _ hrep
-    have hlen : ((recordStream types points i).take (cursors.getD i 0) ++
-        ((recordStream types points i).drop (cursors.getD i 0)).take (lens.getD i 0)).length = c' i := by
-      simp only [c', List.length_append, List.length_take, List.length_drop]; omega
-    have hav := rep_avail _ _ _ hrep1
-    rw [hlen] at hav
-    have hw0 : 0 < (dtAt proto i).bitSize := by omega
-    have hmono := div_mul_mono (cursors.getD i 0) (c' i) (dtAt proto i).bitSize (by simp only [c']; omega)
-    have hP : 8 * cursors.getD i 0 / (dtAt proto i).bitSize * (dtAt proto i).bitSize ≤ 8 * c' i := by
-      have := Nat.div_mul_le_self (8 * cursors.getD i 0) (dtAt proto i).bitSize
-      simp only [c']; omega
-    have hql : (q.queues.getD i []).length = 8 * cursors.getD i 0 / (dtAt proto i).bitSize - k := by
-      rw [eq, List.length_drop, fieldVals_length]
-    refine ⟨?_, hmono⟩
-    simp only [items]
-    rw [ss1get i hi, hav, hql, hproto, ← dtAt, sub_mul_div' _ _ _ hw0 hP]
-    omega
-  have hsz : ∀ i, sizedAt q.proto i ↔ (i < types.length ∧ (dtAt proto i).bitSize ≠ 0) := by
-    intro i; rw [hproto]; simp only [sizedAt, dtAt, st.plen]
-  -- the minimum
-  have hmin := minQueueSize_spec q.proto ss1 q.queues (by omega) (by omega)
-  have hm : (∀ i, i < types.length → (dtAt proto i).bitSize ≠ 0 → m + k ≤ 8 * c' i / (dtAt proto i).bitSize) ∧
-      ∃ i, i < types.length ∧ (dtAt proto i).bitSize ≠ 0 ∧ m + k = 8 * c' i / (dtAt proto i).bitSize := by
-    cases hmq : minQueueSize q.proto ss1 q.queues with
-    | none =>
-      rw [hmq] at hmin
-      exact absurd ((hsz j).2 ⟨hj, hjw⟩) (hmin j)
-    | some m0 =>
-      rw [hmq] at hmin
-      have em : m = m0 := by simp only [m, hmq, Option.getD_some]
-      obtain ⟨hle, i0, hi0, ei0⟩ := hmin
-      rw [em]
-      constructor
-      · intro i hi hw
-        have := hle i ((hsz i).2 ⟨hi, hw⟩)
-        have := (hitems i hi hw).1
-        omega
-      · obtain ⟨a, b⟩ := (hsz i0).1 hi0
-        exact ⟨i0, a, b, by have := (hitems i0 a b).1; omega⟩
-  obtain ⟨hmle, i1, hi1, hi1w, hi1e⟩ := hm
-  have hMm : M ≤ m + k := by
-    have h1 := ((recs i1 hi1).2.2 hi1w).2.2.2
-    have h2 := (hitems i1 hi1 hi1w).2
-    omega
-  obtain ⟨ss', qs', e, l1, l2, pall⟩ := parseStreams_all m
-    (fun i s' q' => RecInv (dtAt proto i) (recordStream types points i) (c' i) k (m + k) s' q')
+  -- the minimum over the sized records of the complete fields seen
+  obtain ⟨M', hmle, i1, hi1, hi1w, hi1e⟩ := exists_min_on (fun i => (dtAt proto i).bitSize ≠ 0)
+    (fun i => 8 * c' i / (dtAt proto i).bitSize) types.length ⟨j, hj, hjw⟩
+  obtain ⟨ss', qs', e, l1, l2, pall⟩ := parseStreams_all
+    (fun i s' q' => RecInv (dtAt proto i) (recordStream types points i) (c' i) k M' s' q')
     q.proto ss1 q.queues 0 (by omega) (by omega) (by
       intro i hi
       have hi' : i < types.length := by omega
       rw [dtAt_eq q.proto i hi, hproto, ss1get i hi', Nat.zero_add]
-      exact rec_step (dtAt proto i) (st.rangeOk i hi') _ (st.stream_zero i hi') _ k M _ m _ _
-        (recs i hi') hMm (hmle i hi'))
-  refine ⟨ss', qs', e, ⟨hproto, by simp only; omega, by simp only; omega,
+      exact rec_step (dtAt proto i) (st.rangeOk i hi') _ (st.stream_zero i hi') _ k M _ M' _ _
+        (recs i hi') (hmle i hi'))
+  refine ⟨ss', qs', M', e, ⟨hproto, by simp only; omega, by simp only; omega,
     nextCursors_length _ _ clen, ?_, ?_⟩⟩
   · intro i hi
     rw [nextCursors_getD cursors lens i hi]
@@ -1268,7 +1192,7 @@ theorem advance_data {d : Bytes} (hd : d.length % 1020 = 0) {r : PR} {o : Nat} (
     (by rw [chlen, inv.slen]) a2
     (hX.right.right.left.cast (by rw [hA, hS])) inv.streams_wf
   -- the queues
-  obtain ⟨ss', qs', e4, inv'⟩ := parse_step st k M cursors lens q inv
+  obtain ⟨ss', qs', M', e4, inv'⟩ := parse_step st k M cursors lens q inv
   -- alignment
   have hoff : o + 6 + 2 * (chunks (streamsOf types points) cursors lens).length +
       (chunks (streamsOf types points) cursors lens).flatten.length
@@ -1320,41 +1244,85 @@ theorem minList_le_mem (l : List Nat) (m x : Nat) (h : minList l = some m) (hx :
 section
 variable {types : List RecType} {points : List (List Int)} {proto : List Record}
 
-theorem QInv.queue_len {k M : Nat} {cursors : List Nat} {q : QR}
-    (inv : QInv types points proto k M cursors q) (i : Nat) (hi : i < types.length) :
-    M - k ≤ (q.queues.getD i []).length ∧ k ≤ M := by
-  obtain ⟨_, hz, hs⟩ := inv.recs i hi
+theorem QInv.k_le {k M : Nat} {cursors : List Nat} {q : QR}
+    (inv : QInv types points proto k M cursors q) : k ≤ M := by
   obtain ⟨j, hj, hjw, hjM⟩ := inv.wit
-  have hkM : k ≤ M := by
-    have := ((inv.recs j hj).2.2 hjw).2.2.1; omega
-  by_cases hw : (dtAt proto i).bitSize = 0
-  · rw [(hz hw).2]; simp [hkM]
-  · obtain ⟨_, eq, hk, hM⟩ := hs hw
-    rw [eq, List.length_drop, fieldVals_length]; omega
+  have := ((inv.recs j hj).2.2 hjw).2.2.1; omega
+
+/-- the queue of a sized record holds at least `M - k` values -/
+theorem QInv.queue_len {k M : Nat} {cursors : List Nat} {q : QR}
+    (inv : QInv types points proto k M cursors q) (i : Nat) (hi : i < types.length)
+    (hw : (dtAt proto i).bitSize ≠ 0) :
+    M - k ≤ (q.queues.getD i []).length := by
+  obtain ⟨_, _, hs⟩ := inv.recs i hi
+  obtain ⟨_, eq, hk, hM⟩ := hs hw
+  rw [eq, List.length_drop, fieldVals_length]; omega
+
+theorem QInv.allConstant_false {k M : Nat} {cursors : List Nat} {q : QR}
+    (st : Static types points proto) (inv : QInv types points proto k M cursors q) :
+    q.allConstant = false := by
+  rw [← QR.zw_eq_allConstant]; exact inv.zw_false st
+
+/-- a pair of the zip of prototype and queues sits at some index -/
+theorem QInv.mem_zip {k M : Nat} {cursors : List Nat} {q : QR}
+    (st : Static types points proto) (inv : QInv types points proto k M cursors q)
+    (rec : Record) (qu : List Value) (h : (rec, qu) ∈ q.proto.zip q.queues) :
+    ∃ i, i < types.length ∧ rec.dt = dtAt proto i ∧ qu = q.queues.getD i [] := by
+  obtain ⟨i, hi, e⟩ := List.mem_iff_getElem.mp h
+  rw [List.getElem_zip] at e
+  simp only [List.length_zip, inv.hproto, st.plen, inv.qlen, Nat.min_self] at hi
+  have hip : i < proto.length := by rw [st.plen]; exact hi
+  have hiq : i < q.queues.length := by rw [inv.qlen]; exact hi
+  simp only [Prod.mk.injEq] at e
+  refine ⟨i, hi, ?_, ?_⟩
+  · rw [← e.1, ← dtAt_eq proto i hip]; simp only [inv.hproto]
+  · rw [← e.2]; simp [List.getD_eq_getElem?_getD, hiq]
+
+theorem sized_of_constOf_none (dt : DataType) (h : (constOf dt).isNone = true) : dt.bitSize ≠ 0 := by
+  intro hz
+  rw [constOf_zero dt hz] at h; simp at h
 
 theorem QInv.available_eq {k M : Nat} {cursors : List Nat} {q : QR}
+    (st : Static types points proto)
     (inv : QInv types points proto k M cursors q) : q.available = M - k := by
   obtain ⟨j, hj, hjw, hjM⟩ := inv.wit
-  have hne : q.queues.map List.length ≠ [] := by
-    intro e
-    have := congrArg List.length e
-    rw [List.length_map, inv.qlen, List.length_nil] at this; omega
-  obtain ⟨m, em, hm⟩ := minList_ge (q.queues.map List.length) (M - k) (by
-    intro x hx
-    obtain ⟨l, hl, rfl⟩ := List.mem_map.mp hx
-    obtain ⟨i, hi, e⟩ := mem_getD q.queues l [] hl
-    rw [← e]
-    exact (inv.queue_len i (by rw [← inv.qlen]; exact hi)).1) hne
-  have hjq : (q.queues.getD j []).length = M - k := by
+  have hjp : j < proto.length := by rw [st.plen]; exact hj
+  have hjq : j < q.queues.length := by rw [inv.qlen]; exact hj
+  have hqne : q.queues.isEmpty = false := by
+    cases hq : q.queues with
+    | nil => rw [hq] at hjq; simp at hjq
+    | cons a l => rfl
+  have hjlen : (q.queues.getD j []).length = M - k := by
     obtain ⟨_, eq, _, _⟩ := (inv.recs j hj).2.2 hjw
     rw [eq, List.length_drop, fieldVals_length, hjM]
-  have hmem : (q.queues.getD j []).length ∈ q.queues.map List.length := by
+  unfold QR.available QR.countedLengths
+  rw [hqne, inv.allConstant_false st]
+  simp only [Bool.false_eq_true, if_false]
+  generalize hL : (((q.proto.zip q.queues).filter (fun x : Record × List Value =>
+      match x with | (rec, _) => (constOf rec.dt).isNone)).map
+        (fun x : Record × List Value => match x with | (_, qu) => qu.length)) = L
+  have hmem : (q.queues.getD j []).length ∈ L := by
+    rw [← hL]
     apply List.mem_map.mpr
-    refine ⟨q.queues.getD j [], ?_, rfl⟩
-    have hjl : j < q.queues.length := by rw [inv.qlen]; exact hj
-    simp [List.getD_eq_getElem?_getD, hjl]
+    refine ⟨(proto[j], q.queues[j]), ?_, by simp [List.getD_eq_getElem?_getD, hjq]⟩
+    apply List.mem_filter.mpr
+    refine ⟨?_, ?_⟩
+    · apply List.mem_iff_getElem.mpr
+      refine ⟨j, by simp only [List.length_zip, inv.hproto]; omega, ?_⟩
+      rw [List.getElem_zip]; simp only [inv.hproto]
+    · simp only [dtAt_eq proto j hjp, constOf_sized _ hjw, Option.isNone_none]
+  have hne : L ≠ [] := by intro e; rw [e] at hmem; simp at hmem
+  obtain ⟨m, em, hm⟩ := minList_ge L (M - k) (by
+    intro x hx
+    rw [← hL] at hx
+    obtain ⟨⟨rec, qu⟩, hp, rfl⟩ := List.mem_map.mp hx
+    obtain ⟨hz, hc⟩ := List.mem_filter.mp hp
+    obtain ⟨i, hi, e1, e2⟩ := inv.mem_zip st rec qu hz
+    have hw := sized_of_constOf_none rec.dt hc
+    rw [e1] at hw
+    simp only [e2]
+    exact inv.queue_len i hi hw) hne
   have := minList_le_mem _ m _ em hmem
-  unfold QR.available
   rw [em]; simp only [Option.getD_some]; omega
 
 /-- the point the spec says comes `k`-th, as the model represents it -/
@@ -1367,29 +1335,39 @@ theorem QInv.pop {k M : Nat} {cursors : List Nat} {q : QR} (st : Static types po
     ∃ q', q.popPoint = some (expPoint proto points[k], q') ∧
       QInv types points proto (k + 1) M cursors q' := by
   have hpk := st.vok _ (List.getElem_mem hk)
-  have hnone : q.queues.any List.isEmpty = false := by
+  have hnone : (q.proto.zip q.queues).any (fun x : Record × List Value =>
+      match x with | (rec, qu) => (constOf rec.dt).isNone && qu.isEmpty) = false := by
     rw [List.any_eq_false]
-    intro l hl
-    obtain ⟨i, hi, e⟩ := mem_getD q.queues l [] hl
-    have := (inv.queue_len i (by rw [← inv.qlen]; exact hi)).1
-    rw [e] at this
-    cases l with
+    intro ⟨rec, qu⟩ hl
+    simp only [Bool.and_eq_true, not_and, Bool.not_eq_true]
+    intro hc
+    obtain ⟨i, hi, e1, e2⟩ := inv.mem_zip st rec qu hl
+    have hw := sized_of_constOf_none rec.dt hc
+    rw [e1] at hw
+    have := inv.queue_len i hi hw
+    rw [← e2] at this
+    cases qu with
     | nil => simp at this; omega
-    | cons a l => simp
+    | cons a l => rfl
   -- heads and tails, record by record
   have hrec : ∀ i, i < types.length →
-      (q.queues.getD i []).headD (.integer 0) = toValue (dtAt proto i) (points[k].getD i 0) ∧
+      (match constOf (dtAt proto i) with
+        | some v => v
+        | none => (q.queues.getD i []).headD (.integer 0)) = toValue (dtAt proto i) (points[k].getD i 0) ∧
       RecInv (dtAt proto i) (recordStream types points i) (cursors.getD i 0) (k + 1) M
-        (q.streams.getD i RBuf.new) ((q.queues.getD i []).tail) := by
+        (q.streams.getD i RBuf.new)
+        (if (constOf (dtAt proto i)).isSome then q.queues.getD i [] else (q.queues.getD i []).tail) := by
     intro i hi
     obtain ⟨hc, hz, hs⟩ := inv.recs i hi
     by_cases hw : (dtAt proto i).bitSize = 0
     · obtain ⟨es, eq⟩ := hz hw
-      have : M - k = (M - (k + 1)) + 1 := by omega
-      rw [eq, this, List.replicate_succ]
-      refine ⟨?_, hc, fun _ => ⟨es, rfl⟩, fun h => absurd hw h⟩
+      rw [constOf_zero _ hw]
+      simp only [Option.isSome_some, if_true]
+      refine ⟨?_, hc, fun _ => ⟨es, eq⟩, fun h => absurd hw h⟩
       exact zero_width_value (st.tmatch i hi) (st.tok i hi) hw _ (hpk.2 i hi)
     · obtain ⟨hrep, eq, hkc, hM⟩ := hs hw
+      rw [constOf_sized _ hw]
+      simp only [Option.isSome_none, Bool.false_eq_true, if_false]
       have hw0 : 0 < (dtAt proto i).bitSize := by omega
       have hkcnt : k < 8 * cursors.getD i 0 / (dtAt proto i).bitSize := by omega
       have hfield := st.stream_field i hi (cursors.getD i 0) k hk (by
@@ -1410,25 +1388,33 @@ theorem QInv.pop {k M : Nat} {cursors : List Nat} {q : QR} (st : Static types po
         exact dec_field (st.tmatch i hi) (st.tok i hi) _ (hpk.2 i hi)
       rw [eq, hdrop]
       exact ⟨rfl, hc, fun h => absurd h hw, fun _ => ⟨hrep, rfl, by omega, hM⟩⟩
-  refine ⟨{ q with queues := q.queues.map List.tail }, ?_, ⟨inv.hproto, inv.slen, by simp [inv.qlen],
-    inv.clen, ?_, inv.wit⟩⟩
-  · simp only [QR.popPoint, hnone, Bool.false_eq_true, if_false]
+  have hzl : (q.proto.zip q.queues).length = types.length := by
+    simp only [List.length_zip, inv.hproto, st.plen, inv.qlen, Nat.min_self]
+  refine ⟨{ q with queues := (q.proto.zip q.queues).map (fun x : Record × List Value =>
+      match x with | (rec, qu) => if (constOf rec.dt).isSome then qu else qu.tail) }, ?_,
+    ⟨inv.hproto, inv.slen, by simp only [List.length_map, hzl], inv.clen, ?_, inv.wit⟩⟩
+  · simp only [QR.popPoint, inv.allConstant_false st, hnone, Bool.false_eq_true, if_false]
     congr 2
     apply List.ext_getElem
-    · simp [expPoint, inv.qlen, st.plen, hpk.1]
+    · simp only [List.length_map, hzl, expPoint, List.length_zipWith, st.plen, hpk.1, Nat.min_self]
     · intro i h1 h2
-      have hi : i < types.length := by simpa [inv.qlen] using h1
+      have hi : i < types.length := by simpa only [List.length_map, hzl] using h1
       have hiq : i < q.queues.length := by rw [inv.qlen]; exact hi
       have hip : i < proto.length := by rw [st.plen]; exact hi
       have hipt : i < points[k].length := by rw [hpk.1]; exact hi
       have := (hrec i hi).1
       simp only [List.getD_eq_getElem?_getD, List.getElem?_eq_getElem hiq, Option.getD_some,
         List.getElem?_eq_getElem hipt] at this
-      simp only [expPoint, List.getElem_map, List.getElem_zipWith, this, dtAt_eq proto i hip]
+      simp only [expPoint, List.getElem_map, List.getElem_zipWith, List.getElem_zip, inv.hproto,
+        dtAt_eq proto i hip]
+      exact this
   · intro i hi
     have hiq : i < q.queues.length := by rw [inv.qlen]; exact hi
+    have hip : i < proto.length := by rw [st.plen]; exact hi
+    have hiz : i < (proto.zip q.queues).length := by rw [← inv.hproto, hzl]; exact hi
     have := (hrec i hi).2
     simp only [List.getD_eq_getElem?_getD, List.getElem?_map, List.getElem?_eq_getElem hiq,
+      List.getElem?_eq_getElem hiz, List.getElem_zip, inv.hproto, dtAt_eq proto i hip,
       Option.map_some, Option.getD_some] at this ⊢
     exact this
 
@@ -1549,7 +1535,7 @@ theorem refill_ok {d : Bytes} (hd : d.length % 1020 = 0) (st : Static types poin
     | zero => omega
     | succ f =>
       refine ⟨r, q, [], o, M, cursors, ?_, run, by omega⟩
-      have : q.available ≥ 1 := by rw [run.inv.available_eq]; omega
+      have : q.available ≥ 1 := by rw [run.inv.available_eq st]; omega
       rw [refill_succ, if_pos this]
   | cons p ps ih =>
     intro fuel r q o M cursors hf run
@@ -1559,7 +1545,7 @@ theorem refill_ok {d : Bytes} (hd : d.length % 1020 = 0) (st : Static types poin
       rw [refill_succ]
       by_cases hav : q.available ≥ 1
       · rw [if_pos hav]
-        exact ⟨r, q, p :: ps, o, M, cursors, rfl, run, by rw [run.inv.available_eq] at hav; omega⟩
+        exact ⟨r, q, p :: ps, o, M, cursors, rfl, run, by rw [run.inv.available_eq st] at hav; omega⟩
       · rw [if_neg hav]
         obtain ⟨r1, q1, M1, e, run1, _⟩ := advance_step hd st hne k p ps r q o M cursors run
         obtain ⟨r', q', todo', o', M', c', e', run', hk'⟩ := ih f r1 q1 _ M1 _ (by simpa using hf) run1
@@ -1575,8 +1561,8 @@ def advanceN : Nat → QR → PR → PR × QR × Bool
 
 /-- **the queue invariant** after any prefix `done` of the packets ahead of the reader: every
     `advance` succeeds, and the state is again `Run` (the queues hold exactly the complete fields of
-    the stream bytes seen so far, the buffers the unconsumed bits, zero-width records are filled to
-    the minimum over the sized records), with the reader at the first packet of `todo` -/
+    the stream bytes seen so far, the buffers the unconsumed bits, the queues of zero-width records
+    stay empty: their value is a constant of the prototype), with the reader at the first packet of `todo` -/
 theorem queue_inv {d : Bytes} (hd : d.length % 1020 = 0) (st : Static types points proto)
     (hne : types ≠ []) (k : Nat) :
     ∀ (done todo : List PacketSpec) (r : PR) (q : QR) (o M : Nat) (cursors : List Nat),
@@ -1962,8 +1948,13 @@ theorem zw_next (proto : List Record) (hne : proto ≠ []) (hz : ∀ rec ∈ pro
     simp only [QR.zw, QR.allZeroWidth, Bool.and_eq_true, List.all_eq_true, Bool.not_eq_true',
       List.isEmpty_eq_false_iff]
     exact ⟨fun rec hrec => by simpa using hz rec hrec, hne⟩
+  have hac : ∀ qs, (QR.mk proto ss qs).allConstant = true := by
+    intro qs
+    rw [← QR.zw_eq_allConstant]
+    exact hzw
   have hav0 : ¬ ((QR.mk proto ss (List.replicate proto.length [])).available ≥ 1) := by
-    simp only [QR.available, List.map_replicate, List.length_nil, hn, minList_replicate]
+    simp only [QR.available, QR.countedLengths, hac, if_true, List.map_replicate, List.length_nil, hn,
+      minList_replicate]
     simp
   have hzip : (proto.zip (List.replicate proto.length ([] : List Value))).map
       (fun (x : Record × List Value) => x.2 ++ [zeroValue x.1.dt]) = proto.map (fun rec => [zeroValue rec.dt]) := by
@@ -1976,7 +1967,11 @@ theorem zw_next (proto : List Record) (hne : proto ≠ []) (hz : ∀ rec ∈ pro
       apply List.ext_getElem
       · simp
       · intro i h1 h2; simp
-    simp only [QR.available, this, minList_replicate]
+    have hne' : (proto.map (fun rec => [zeroValue rec.dt])).isEmpty = false := by
+      cases proto with
+      | nil => exact absurd rfl hne
+      | cons a l => rfl
+    simp only [QR.available, QR.countedLengths, hac, if_true, hne', this, minList_replicate]
     simp
   have hfuel : refillFuel r = (r.logSize) + 1 + 1 := rfl
   have hadv : (QR.mk proto ss (List.replicate proto.length [])).advance r =
@@ -2001,7 +1996,7 @@ theorem zw_next (proto : List Record) (hne : proto ≠ []) (hz : ∀ rec ∈ pro
       apply List.ext_getElem
       · simp
       · intro i h1 h2; simp
-    simp only [QR.popPoint, hany, Bool.false_eq_true, if_false, List.map_map, hq]
+    simp only [QR.popPoint, hac, if_true, hany, Bool.false_eq_true, if_false, List.map_map, hq]
     rfl
   simp only [RawIter.next, hlt, if_false, hrefill, hpop]
 
